@@ -996,7 +996,17 @@ class FilePool(Mapping[str, IO]):
         """
         Close all files in pool.
         """
-        for f in self.file_handles.values():
-            f.close()
+        first_error = None
+        try:
+            for f in self.file_handles.values():
+                try:
+                    f.close()
+                except Exception as e:
+                    # the other files must be closed even if closing of this one fails (e.g. the disk is full)
+                    if first_error is None:
+                        first_error = e
+        finally:
+            self.file_handles = None
 
-        self.file_handles = None
+        if first_error is not None:
+            raise first_error
